@@ -355,8 +355,10 @@ def C02(run):
 
 @prop('C03')
 def C03(run):
-    count_property(run, dict(rules=STAT + ['wigm'], keys=['C04q', 'C06r', 'C07b', 'C07l', 'C07t', 'C07s'], proj=proj_C03,
-                             options_fn=wigm_fixed4, quick=5000, thorough=150000))
+    # the rules with batch exclusions and statute-specific tie rules get double weight
+    count_property(run, dict(rules=STAT + ['wigm', 'cfer-batch', 'wigm-prf-batch', 'mpls', 'scotland'],
+                             keys=['C04q', 'C06r', 'C07b', 'C07l', 'C07t', 'C07s'], proj=proj_C03,
+                             options_fn=wigm_fixed4, quick=9000, thorough=150000))
 
 
 @prop('C04')
@@ -385,7 +387,8 @@ def C09(run):
 
 @prop('C05')
 def C05(run):
-    count_property(run, dict(rules=ALL, keys=['C05'], proj=proj_C05, quick=6000, thorough=150000, equal_ranks=0.0,
+    # crash=True: a count that dies where the model completes elects nobody, so the coalition is not represented
+    count_property(run, dict(rules=ALL, keys=['C05'], crash=True, proj=proj_C05, quick=6000, thorough=150000, equal_ranks=0.0,
                              families=['coalitions', 'coalitions', 'majority', 'plain', 'chains', 'on_quota']))
     run.coverage['explanation'] = ('theorem: the one-seat majority case (lean/Props/C05.lean); the general k-quota claim is explored only: '
                                    'the compiled Lean predicate okC05 enumerates every candidate subset on the record of every generated election')
